@@ -31,7 +31,27 @@ ARENA_GENS = {
     "C18": ["history", "random"],
 }
 
+COLL_GENS = {
+    "C13": ["single", "pairs", "random"],
+    "C15": ["single", "pairs", "random"],
+    "C16": ["panics", "random-panics"],
+    "C17": ["single", "pairs", "random"],
+}
+
+def coll_corpus(tier, seed, gens, profiles=("dbg", "rel")):
+    jobs = []
+    for g in gens:
+        for prof in profiles:
+            n = {"quick": 2, "thorough": 6}[tier]
+            jobs += tj("coll_driver", g, tier, prof, seed, n, ["CollTrace"], max_events=25000)
+    return jobs
+
 def plan_for(pid, tier, seed):
+    if pid in COLL_GENS:
+        return dict(level="model_checking", mc=[], traces=coll_corpus(tier, seed, COLL_GENS[pid]), special=[],
+                    assumptions=["TLC and the Json/IOUtils community modules",
+                                 "the reference semantics Coll.tla (cross-validated: the same formulas accept std's own Vec/Box on the same programs)",
+                                 "Tracked elements' drop ledger (harness)"])
     if pid in ARENA_PROPS:
         return dict(level="model_checking", mc=[], traces=arena_corpus(tier, seed, ARENA_GENS[pid]), special=[],
                     assumptions=["TLC and the Json/IOUtils community modules",
